@@ -14,7 +14,8 @@ Step(e) ==
       [] e.ev = "CssName" ->       \* a name of the CSS table looked up with GetColor
            IF e.hex = CssTable[e.name] THEN {} ELSE {Dev("C16.name", "css_name", <<e.name, e.hex>>)}
       [] e.ev = "TcellName" ->     \* a name tcell defines
-           IF e.name \in DOMAIN CssTable /\ e.hex = CssTable[e.name] THEN {}
+           IF e.name \in DOMAIN CssTable /\ e.hex = CssTable[e.name] THEN
+              (IF e.backhex = e.hex /\ e.strhex = e.hex THEN {} ELSE {Dev("C16.name", "name_of_colour_is_another_colour", <<e.name, e.hex, e.backhex, e.strhex>>)})
            ELSE {Dev("C16.name", IF e.name \in DOMAIN CssTable THEN "tcell_name_value" ELSE "EXTRA_name_not_in_css", <<e.name, e.hex>>)}
       [] e.ev = "Conv" -> {Dev("C16.conversion", p, e.v) : p \in ConvWrong(e)}
       [] e.ev = "Block" -> {Dev("C16.conversion", p, e.base) : p \in BlockWrong(e)}
